@@ -8,6 +8,8 @@ package main
 
 import (
 	"fmt"
+	"os"
+	"sync"
 	"time"
 
 	"github.com/jech/galene/unbounded"
@@ -121,9 +123,59 @@ func run(tr *vt.Trace, b beh, nprod int, id int) {
 	tr.Emit(map[string]any{"ev": "end", "token": token, "left": left, "completed": vt.B(ok)})
 }
 
+// free-running stress in the pattern of the client loop: many producers, one consumer that waits
+// on Ch and then calls Get.  The verdict is taken in the QUIESCENT state after all producers have
+// returned: if no wake-up token is available although items are still queued, the wake-up was lost
+// (no timing is involved in that judgement; the idle timeout only ends the consumer's wait).
+func stress(tr *vt.Trace, rounds, nprod, nitems int) {
+	for r := 0; r < rounds; r++ {
+		ch := unbounded.New[int]()
+		var wg sync.WaitGroup
+		for p := 0; p < nprod; p++ {
+			wg.Add(1)
+			go func(p int) {
+				defer wg.Done()
+				for k := 0; k < nitems; k++ {
+					ch.Put(p*100000 + k)
+				}
+			}(p)
+		}
+		got := 0
+		prodDone := make(chan struct{})
+		go func() { wg.Wait(); close(prodDone) }()
+		finished := false
+		for !finished {
+			select {
+			case <-ch.Ch:
+				got += len(ch.Get())
+			case <-prodDone:
+				finished = true
+			}
+		}
+		// producers are done; drain whatever wake-ups are pending
+		for {
+			select {
+			case <-ch.Ch:
+				got += len(ch.Get())
+				continue
+			default:
+			}
+			break
+		}
+		left := ch.Get()
+		tr.Emit(map[string]any{"ev": "New", "id": r, "nprod": nprod})
+		tr.Emit(map[string]any{"ev": "stress", "got": got, "left": len(left), "total": nprod * nitems})
+	}
+}
+
 func main() {
 	tr := vt.OpenTrace()
 	defer tr.Close()
+	if os.Getenv("VERIF_MODE") == "stress" {
+		verifhook.Set(nil)
+		stress(tr, vt.EnvInt("VERIF_N", 300), 12, 40)
+		return
+	}
 	var behs []beh
 	if !vt.Script(&behs) {
 		fmt.Println("no schedules")
